@@ -23,6 +23,7 @@ import (
 	metric_exporter "github.com/alibaba/sentinel-golang/exporter/metric"
 	"github.com/alibaba/sentinel-golang/logging"
 	"github.com/alibaba/sentinel-golang/util"
+	"github.com/alibaba/sentinel-golang/util/vhook"
 	"github.com/pkg/errors"
 )
 
@@ -87,6 +88,7 @@ func (s *State) set(update State) {
 }
 
 func (s *State) cas(expect State, update State) bool {
+	vhook.Yield("cb.cas")
 	return atomic.CompareAndSwapInt32((*int32)(s), int32(expect), int32(update))
 }
 
@@ -148,22 +150,27 @@ func (b *circuitBreakerBase) BoundRule() *Rule {
 }
 
 func (b *circuitBreakerBase) CurrentState() State {
+	vhook.Yield("cb.get")
 	return b.state.get()
 }
 
 func (b *circuitBreakerBase) retryTimeoutArrived() bool {
+	vhook.Yield("cb.deadline.load")
 	return util.CurrentTimeMillis() >= atomic.LoadUint64(&b.nextRetryTimestampMs)
 }
 
 func (b *circuitBreakerBase) updateNextRetryTimestamp() {
+	vhook.Yield("cb.deadline.store")
 	atomic.StoreUint64(&b.nextRetryTimestampMs, util.CurrentTimeMillis()+uint64(b.retryTimeoutMs))
 }
 
 func (b *circuitBreakerBase) addCurProbeNum() {
+	vhook.Yield("cb.probe.add")
 	atomic.AddUint64(&b.curProbeNumber, 1)
 }
 
 func (b *circuitBreakerBase) resetCurProbeNum() {
+	vhook.Yield("cb.probe.reset")
 	atomic.StoreUint64(&b.curProbeNumber, 0)
 }
 
@@ -172,6 +179,7 @@ func (b *circuitBreakerBase) resetCurProbeNum() {
 func (b *circuitBreakerBase) fromClosedToOpen(snapshot interface{}) bool {
 	if b.state.cas(Closed, Open) {
 		b.updateNextRetryTimestamp()
+		vhook.Yield("cb.notify")
 		for _, listener := range stateChangeListeners {
 			listener.OnTransformToOpen(Closed, *b.rule, snapshot)
 		}
@@ -186,6 +194,7 @@ func (b *circuitBreakerBase) fromClosedToOpen(snapshot interface{}) bool {
 // Return true only if current goroutine successfully accomplished the transformation.
 func (b *circuitBreakerBase) fromOpenToHalfOpen(ctx *base.EntryContext) bool {
 	if b.state.cas(Open, HalfOpen) {
+		vhook.Yield("cb.notify")
 		for _, listener := range stateChangeListeners {
 			listener.OnTransformToHalfOpen(Open, *b.rule)
 		}
@@ -199,6 +208,7 @@ func (b *circuitBreakerBase) fromOpenToHalfOpen(ctx *base.EntryContext) bool {
 			// this hook will guarantee current circuit breaker state machine will rollback to Open from Half-Open
 			entry.WhenExit(func(entry *base.SentinelEntry, ctx *base.EntryContext) error {
 				if ctx.IsBlocked() && b.state.cas(HalfOpen, Open) {
+					vhook.Yield("cb.notify")
 					for _, listener := range stateChangeListeners {
 						listener.OnTransformToOpen(HalfOpen, *b.rule, 1.0)
 					}
@@ -219,6 +229,7 @@ func (b *circuitBreakerBase) fromHalfOpenToOpen(snapshot interface{}) bool {
 	if b.state.cas(HalfOpen, Open) {
 		b.resetCurProbeNum()
 		b.updateNextRetryTimestamp()
+		vhook.Yield("cb.notify")
 		for _, listener := range stateChangeListeners {
 			listener.OnTransformToOpen(HalfOpen, *b.rule, snapshot)
 		}
@@ -234,6 +245,7 @@ func (b *circuitBreakerBase) fromHalfOpenToOpen(snapshot interface{}) bool {
 func (b *circuitBreakerBase) fromHalfOpenToClosed() bool {
 	if b.state.cas(HalfOpen, Closed) {
 		b.resetCurProbeNum()
+		vhook.Yield("cb.notify")
 		for _, listener := range stateChangeListeners {
 			listener.OnTransformToClosed(HalfOpen, *b.rule)
 		}
